@@ -69,7 +69,8 @@ class Renderer:
     if k == "lsel":
       r = dict(e[1]); base = r["sig"]
       pre = "s" + ("." + r["inst"] if r["inst"] else "") + "." + base
-      return f"{pre}[{self.ex(e[3])}]"
+      sl = f"[{e[4][0]}:{e[4][1]}]" if len(e) > 4 and e[4] is not None else ""
+      return f"{pre}[{self.ex(e[3])}]{sl}"
     if k == "tmp": return e[1]
     if k == "tmpsl": return f"{e[1]}[{e[2]}:{e[3]}]"
     if k == "bin": return f"({self.ex(e[2])} {e[1]} {self.ex(e[3])})"
